@@ -34,8 +34,12 @@ Judge(a, e) ==
       b == e.post
       o == AsModelResp(c, e.resp)
       r == Apply(a, c)
-  IN IF ~RespMatches(c, r.resp, e.resp) THEN "A_resp"
-     ELSE IF r.st # b THEN "A_state"
+      \* the choice the code makes today is tried first; any other allowed choice (VizierAtomic.Variants) explains it as well
+      byDefault == RespMatches(c, r.resp, e.resp) /\ r.st = b
+      explained == byDefault \/ \E v \in Variants(a, c) : RespMatches(c, Apply(a, v).resp, e.resp) /\ Apply(a, v).st = b
+      respOk == RespMatches(c, r.resp, e.resp) \/ \E v \in Variants(a, c) : RespMatches(c, Apply(a, v).resp, e.resp)
+  IN IF ~explained /\ ~respOk THEN "A_resp"
+     ELSE IF ~explained THEN "A_state"
      ELSE IF ~StepTransitions(a, b, c) THEN "C01_Transitions"
      ELSE IF ~StepParamsFrozen(a, b, c) THEN "C01_ParamsFrozen"
      ELSE IF ~StepCompletedFrozen(a, b, c) THEN "C01_CompletedFrozen"
